@@ -10,13 +10,15 @@ from vk import models as M
 ID = "C17"
 LEVEL = "exploration"
 RULE = (
-    "Hypothesis draws (a) bin tables (1..3 chromosomes, log2 from a tie-rich palette + seeded noise, weights in (0,1), "
-    "null-coverage bins, Antitarget names) with a segmentation at bin edges that also holds segments with no bin (in a gap "
-    "or on a chromosome without bins) and one-bin segments, segment log2 offset from the bin mean, a subset of statistics, "
-    "alpha, bootstraps, smoothed, skip_low, and runs segmetrics and bintest; (b) p-value vectors of length 1..200 with ties, "
-    "0 and 1 for p_adjust_bh. Oracle: bins of a segment by the overlap inequality, each statistic recomputed independently "
-    "(plain formulas / scipy.stats.t / normal cdf / O(n^2) Benjamini-Hochberg definition). Non-trivial = >= 2 segments with "
-    ">= 3 bins each (a) or a vector with a tie and a value capped by a later one (b); distinct = distinct case JSON."
+    "Hypothesis draws (a) bin tables (1..3 chromosomes, log2 from a tie-rich palette + seeded noise, weights in "
+    "(0,1), null-coverage bins, Antitarget names) with a segmentation at bin edges that also holds segments with "
+    "no bin (in a gap or on a chromosome without bins) and one-bin segments, segment log2 offset from the bin "
+    "mean, a subset of statistics, alpha, bootstraps, smoothed, skip_low, and runs segmetrics and bintest; (b) "
+    "p-value vectors of length 1..200 with ties, 0 and 1 for p_adjust_bh. A third of the cases sit at 2.4e8 / "
+    "beyond 2^31; bintest alphas down to 1e-40, adjusted p compared relatively (1e-7). Oracle: bins of a segment "
+    "by the overlap inequality, each statistic recomputed independently (plain formulas / scipy.stats.t / normal "
+    "cdf / O(n^2) Benjamini-Hochberg definition). Non-trivial = >= 2 segments with >= 3 bins each (a) or a vector "
+    "with a tie and a value capped by a later one (b); distinct = distinct case JSON."
 )
 QUICK = {"examples": 1600, "shards": 16, "budget_s": 300}
 THOROUGH = {"examples": 24000, "shards": 16, "budget_s": 2400}
